@@ -19,7 +19,7 @@ func init() {
 		Explanation: "Decides the structural causes of races, not their absence in general: R1 effect analysis: over everything reachable from the Transaction API (VTA call graph) no store, map update, delete or append writes memory whose access path goes through a shared object (WAF, Rule, RuleGroup, operator/action/writer/formatter/body-processor structs, package variables), " +
 			"per-transaction copies of rule data are made fresh before being appended to (path query with infeasible-branch pruning), reference-typed transaction fields that alias WAF storage are never written through, and the lazy audit-writer initialisation is dead for WAFs built by coraza.NewWAF; " +
 			"R2 guarded-by table: every access to the process-wide tables (memoize entries, random source, transformation-id tables, concurrent audit index) happens with the associated lock held, writes exclusively; R3 no lock is acquired while another module lock is held (lock-order graph has no edge, hence no cycle); " +
-			"R4 the transaction pool is only used by newTransaction (Get) and Close (deferred Put); R2 also: no mutex is locked through a by-value copy of the struct that holds it; R5 a value derived from an object by appending to one of its slices (a logger with more context, an event, a copied list) never grows into the parent's spare capacity: the source is clipped or cloned first; R6 a goroutine the library starts itself is given no transaction state (arguments and captures) and can complete each of its sends without a receiver when its starter may stop waiting. R2 also: the debug log output shared by all transactions is written only through its log.Logger wrapper or under a lock of the module.",
+			"R4 the transaction pool is only used by newTransaction (Get) and Close (deferred Put); R2 also: no mutex is locked through a by-value copy of the struct that holds it; R5 a value derived from an object by appending to one of its slices (a logger with more context, an event, a copied list) never grows into the parent's spare capacity: the source is clipped or cloned first; R6 a goroutine the library starts itself is given no transaction state (arguments and captures) and can complete each of its sends without a receiver when its starter may stop waiting. R2 also: the debug log output shared by all transactions is written only through its log.Logger wrapper or under a lock of the module. R1 also: calls of the mutating methods of a sync.Map whose receiver is WAF- or rule-owned count as writes to shared state, and every constructor-style factory handed to a plugin registry (audit-log writers, actions, operators, body processors) returns an object built in the call, never a captured or package-level instance.",
 		NotDecided: []string{
 			"absence of data races in general (needs a happens-before argument over schedules)",
 			"deadlock freedom beyond the module's own locks",
